@@ -5,6 +5,7 @@ PROP  = 'C07'
 KNOBS = {'max_tasks': 8, 'cancel_prob': 0.8, 'fail_share': 0.25,
          'spawn_fail_share': 0.15, 'timeout_share': 0.25, 'racy_share': 0.5,
          'grace_share': 0.4, 'preempt': 0.03, 'to_burst': 0.15,
+         'stall_choices': [0.0, 0.01, 0.03, 0.2], 'exit_race': 0.12,
          'layout': {'nodes': 2, 'agent_nodes': 0}}
 
 
